@@ -274,6 +274,13 @@ func buildCases(thorough bool) []tcase {
 					if !strings.HasPrefix(p.name, "whole") && sp.kind == "string" {
 						out = append(out, tcase{query: "query Q($b: " + vt + ", $a: String) " + field(strings.ReplaceAll(render("$v"), "$v", "$b")+", s: $a"), form: "variables named b then a", pos: p.name, sp: sp, target: target, vars: map[string]any{"__named": "b", "a": "second"}, hasVar: true})
 					}
+					// a variable that keeps its name because it sits INSIDE a list / object
+					// value, named like the canonical name the mapper hands to the other one
+					if !strings.HasPrefix(p.name, "whole") && sp.kind == "string" {
+						at := strings.ReplaceAll(render("$v"), "$v", "$a")
+						out = append(out, tcase{query: "query Q($a: " + vt + ", $z: String) " + field(at+", s: $z"), form: "variables named a then z", pos: p.name, sp: sp, target: target, vars: map[string]any{"__named": "a", "__other": "z"}, hasVar: true})
+						out = append(out, tcase{query: "query Q($z: String, $a: " + vt + ") " + field("s: $z, "+at), form: "variables named z then a", pos: p.name, sp: sp, target: target, vars: map[string]any{"__named": "a", "__other": "z"}, hasVar: true})
+					}
 					out = append(out, tcase{query: "query Q($v: " + vt + ", $w: String) " + field(render("$v")+", s: $w"), form: "two variables one omitted", pos: p.name, sp: sp, target: target, vars: map[string]any{"v": nil}})
 					// colliding names in non-canonical order with ONE of them omitted: an
 					// omitted variable stays omitted, it never takes the other one's value
@@ -435,8 +442,12 @@ func TestCheck(t *testing.T) {
 				run.Count("not_judged_literal_not_constant", 1)
 				continue
 			}
-			vars["b"] = refexec.LitValue(vdoc.Operations[0].VariableDefinitions[0].DefaultValue)
-			vars["a"] = "second"
+			named, other := c.vars["__named"].(string), "a"
+			if o, _ := c.vars["__other"].(string); o != "" {
+				other = o
+			}
+			vars[named] = refexec.LitValue(vdoc.Operations[0].VariableDefinitions[0].DefaultValue)
+			vars[other] = "second"
 			if om, _ := c.vars["__omit"].(string); om != "" {
 				delete(vars, om)
 			}
